@@ -428,9 +428,52 @@ def check_child_loops(run: Run) -> None:
         run.violation("R02.6", pm, who, "dedent tests in the child loop", f"{who} applies {min(a[1], b[1])} dedent test(s) `current_line_indent < child_indent`; the explicit-INDENT and the implicit-dedent test are both needed to decide parentage")
 
 
+def check_leading_comments_emitted(run: Run) -> None:
+    """R02.10: comments the reader attached to a node are written back: in every emitter function whose node parameter has
+    `leading_comments`, the read of `<node>.leading_comments` (handed to the comment emitter) dominates every return of text -
+    a branch that returns before it (an early return added in front, a helper call that skips it) drops the comments of exactly
+    the nodes that take that branch"""
+    run.rule("R02.10", "leading comments are written for every node that carries them: in emit_assignment / emit_block / emit_section the read of <node>.leading_comments dominates every return", 3)
+    em = run.project.mod("core.emitter")
+    from ..cfg import CFG
+
+    n = 0
+    for q in ("emit_assignment", "emit_block", "emit_section"):
+        fi = em.func(q)
+        p0 = fi.node.args.args[0].arg  # type: ignore[attr-defined]
+        cfg = CFG(fi.node)
+        reads = [nd.id for nd in cfg.nodes if nd.ast is not None and nd.kind in ("stmt", "test", "iter", "with") and any(isinstance(x, ast.Attribute) and x.attr == "leading_comments" and isinstance(x.value, ast.Name) and x.value.id == p0 and not isinstance(getattr(x, "_parent", None), ast.Call) or (isinstance(x, ast.Attribute) and x.attr == "leading_comments" and isinstance(x.value, ast.Name) and x.value.id == p0 and isinstance(getattr(x, "_parent", None), ast.Call) and ast.unparse(getattr(x, "_parent").func) != "hasattr") for x in ast.walk(nd.ast))]
+        if not reads:
+            raise AnalysisError(f"{q}: no read of {p0}.leading_comments found")
+        for rn in [nd for nd in cfg.nodes if isinstance(nd.ast, ast.Return) and nd.ast.value is not None]:
+            n += 1
+            # is there a path entry -> this return that neither reads the comments nor leaves `hasattr(node, "leading_comments")`
+            # by its false edge (a node without the attribute has no comments to write)?
+            seen, stack, found = {cfg.entry}, [cfg.entry], False
+            while stack and not found:
+                cur = stack.pop()
+                if cur == rn.id:
+                    found = True
+                    break
+                if cur in reads:
+                    continue
+                cn = cfg.nodes[cur]
+                has_test = cn.kind == "test" and cn.ast is not None and "hasattr" in ast.unparse(cn.ast) and "leading_comments" in ast.unparse(cn.ast)
+                for s_, lab in cfg.succ[cur]:
+                    if lab == "x" or (has_test and lab == "f") or s_ in seen:
+                        continue
+                    seen.add(s_)
+                    stack.append(s_)
+            ok = not found
+            run.instance("R02.10", em.loc(rn.ast), f"{q}: `{_text(rn.ast)[:50]}` comes after the node's leading comments were read", ok=ok)
+            if not ok:
+                run.violation("R02.10", em, q, f"return before {p0}.leading_comments", f"{q} can return its text on a path that never reads {p0}.leading_comments: the comments the reader attached to such a node are missing from the canonical text (content the author wrote is dropped)", line=rn.lineno)
+
+
 def check(run: Run) -> None:
     tt = enum_members(run.project, "core.lexer", "TokenType")
     pmodel = ParserModel(run.project, tt)
+    check_leading_comments_emitted(run)
     check_tables(run, tt)
     check_fields(run)
     check_comments(run, pmodel)
